@@ -335,6 +335,22 @@ fn build(c: &Case) -> Built {
                 body.extend(ty.to_le_bytes());
                 body.extend(0u32.to_le_bytes());
             }
+            if a.w.first().copied().unwrap_or(0) & 3 == 0 && n > 0 {
+                // areas copied out of a parsed boot information: whatever the boot
+                // loader stored in the reserved word travels with them
+                let src = mb2_model::encode::conformant_tag(6, a.w[0] | 1, n, 0);
+                let al = Aligned::new(&{
+                    let mut i = src.clone();
+                    mb2_model::encode::pad8(&mut i, 0);
+                    i
+                });
+                let parsed = multiboot2_common::DynSizedStructure::<m::TagHeader>::ref_from_slice(al.as_slice()).unwrap().cast::<m::MemoryMapTag>();
+                areas = parsed.memory_areas().to_vec();
+                body = vec![];
+                body.extend(24u32.to_le_bytes());
+                body.extend(0u32.to_le_bytes());
+                body.extend_from_slice(&src[16..]);
+            }
             let t = m::MemoryMapTag::new(&areas);
             rb!(rbv, "entry_size", t.entry_size(), 24);
             rb!(rbv, "entry_version", t.entry_version(), 0);
